@@ -98,7 +98,7 @@ func r12_1(c *Ctx) {
 	}
 	// discovered: constants a consumer compares a Backoff field for equality with
 	for _, fn := range P.Funcs {
-		eachInstrDeep(fn, func(in ssa.Instruction) {
+		eachInstr(fn, func(in ssa.Instruction) {
 			b, ok := in.(*ssa.BinOp)
 			if !ok || (b.Op != token.EQL && b.Op != token.NEQ) {
 				return
@@ -136,7 +136,7 @@ func r12_1(c *Ctx) {
 			continue
 		}
 		writes := false
-		eachInstrDeep(fn, func(in ssa.Instruction) {
+		eachInstr(fn, func(in ssa.Instruction) {
 			if st, ok := in.(*ssa.Store); ok {
 				if o, _, _, ok := fieldSel(st.Addr); ok && o == "Backoff" {
 					writes = true
@@ -266,13 +266,14 @@ func r12_2(c *Ctx) {
 		return
 	}
 	isWait := func(v ssa.Value) bool {
-		for _, s := range sources(v) {
+		src := sourcesIgnoringFailed(v)
+		for _, s := range src {
 			e, ok := s.(*ssa.Extract)
 			if !ok || e.Index != 0 || e.Tuple != ssa.Value(cp.next) {
 				return false
 			}
 		}
-		return true
+		return len(src) > 0
 	}
 	for _, r := range cp.resets {
 		c.check(isWait(r.Call.Args[1]), fnLabel(cp.fn)+":Timer.Reset-arg", P.ipos(r), "timer re-armed with result 0 of next()",
@@ -291,6 +292,35 @@ func r12_2(c *Ctx) {
 	}
 	if len(cp.onRetry) == 0 {
 		c.bad(fnLabel(cp.fn)+":OnRetry-arg", P.pos(cp.fn.Pos()), "Connect never calls Client.OnRetry")
+	}
+	// the schedule starts afresh with every Connect: the controller whose next() is consulted is made by
+	// Backoff.new() in this call (start = now, count 0, interval = InitialInterval), before the loop
+	{
+		var mk *ssa.Call
+		eachInstrDeep(cp.fn, func(in ssa.Instruction) {
+			if call, ok := isModCall(in, "(*Backoff).new"); ok {
+				mk = call
+			}
+		})
+		fresh := false
+		if mk != nil && len(cp.next.Call.Args) > 0 {
+			recv := cp.next.Call.Args[0]
+			// the receiver is (the address of) a local holding new()'s result
+			root := cellRoot(recv)
+			if al, ok := root.(*ssa.Alloc); ok {
+				st, _, _ := cellStores(al)
+				for _, sv := range st {
+					if sv == ssa.Value(mk) {
+						fresh = true
+					}
+				}
+			}
+			if carriesOnly(recv, mk) {
+				fresh = true
+			}
+			fresh = fresh && len(loopsContaining(cp.fn, mk.Block())) == 0
+		}
+		c.check(fresh, fnLabel(cp.fn)+":fresh-controller", P.ipos(cp.next), "the backoff controller consulted by Connect is created by Backoff.new() in this Connect call, before the loop", "the backoff controller consulted by Connect is not created afresh at the start of Connect (e.g. once per Connection): the elapsed-time clock starts before Connect, and a second Connect inherits an exhausted retry count and a grown interval")
 	}
 }
 
@@ -365,11 +395,19 @@ func r12_4(c *Ctx) {
 		c.anchor("doConnect / Connect")
 		return
 	}
-	if len(fn.Params) < 3 {
+	var setRetry *ssa.Parameter
+	for _, p := range fn.Params[1:] {
+		if typeIs(p.Type(), "sse", "backoffController") {
+			setRetry = p
+		}
+		if sig, ok := p.Type().Underlying().(*types.Signature); ok && sig.Params().Len() == 1 && sig.Results().Len() == 0 && sig.Params().At(0).Type().String() == "time.Duration" {
+			setRetry = p
+		}
+	}
+	if setRetry == nil {
 		c.undecided(fnLabel(fn)+":setRetry-param", P.pos(fn.Pos()), "doConnect no longer takes a setRetry parameter")
 		return
 	}
-	setRetry := fn.Params[2]
 	var validator *ssa.Call
 	var read *ssa.Call
 	eachInstrDeep(fn, func(in ssa.Instruction) {
@@ -414,12 +452,12 @@ func r12_4(c *Ctx) {
 	good := false
 	if mc, ok := arg.(*ssa.MakeClosure); ok {
 		if f, ok := mc.Fn.(*ssa.Function); ok && f.Synthetic != "" && f.Object() != nil && f.Object().Name() == "reset" && len(mc.Bindings) == 1 {
-			if mc.Bindings[0] == cp.next.Call.Args[0] {
+			if mc.Bindings[0] == cp.next.Call.Args[0] || cellRoot(mc.Bindings[0]) == cellRoot(cp.next.Call.Args[0]) {
 				good = true
 			}
 		}
 	}
-	if isCtrl && (arg == cp.next.Call.Args[0] || sameValue(arg, cp.next.Call.Args[0])) {
+	if isCtrl && (arg == cp.next.Call.Args[0] || sameValue(arg, cp.next.Call.Args[0]) || cellRoot(arg) == cellRoot(cp.next.Call.Args[0])) {
 		good = true
 	}
 	c.check(good, fnLabel(cp.fn)+":setRetry-binding", P.ipos(cp.doConnect), "doConnect's setRetry is the reset method of the controller next() is invoked on",
@@ -477,6 +515,33 @@ func r12_5(c *Ctx) {
 			good = true
 		}
 	})
+	// ... on every path through the callback: the value announced by the server is applied each time it is
+	// announced (the controller is put back to InitialInterval on every successful connection)
+	{
+		var setCall ssa.Instruction
+		eachInstrDeep(cb, func(in ssa.Instruction) {
+			call, ok := in.(*ssa.Call)
+			if !ok || call.Call.StaticCallee() != nil || len(call.Call.Args) != 1 {
+				return
+			}
+			for _, sv := range sources(call.Call.Value) {
+				if p, ok := sv.(*ssa.Parameter); ok && p.Parent() == fn {
+					if li, ok := liftInstr(in, cb); ok {
+						setCall = li
+					}
+				}
+			}
+		})
+		skipped := false
+		if setCall != nil {
+			for _, ret := range returnsOf(cb) {
+				if reachesAvoiding(entryPoint(cb), ret, func(in ssa.Instruction) bool { return in == setCall }, nil) {
+					skipped = true
+				}
+			}
+		}
+		c.check(setCall != nil && !skipped, fnLabel(cb)+":retry-always-forwarded", P.pos(cb.Pos()), "every call of the retry callback forwards the value to setRetry", "a retry value announced by the server is not always forwarded to setRetry (e.g. only when it differs from the last one): the next connection's announcement is ignored although the interval was reset in between")
+	}
 	c.check(good, fnLabel(cb)+":retry-in-ms", P.pos(cb.Pos()), "the retry callback passes Duration(n)*time.Millisecond to setRetry",
 		"the server's retry value is not forwarded to setRetry as n milliseconds")
 	// reset(d): d > 0 stores d as interval, else InitialInterval
@@ -524,6 +589,7 @@ func r12_6(c *Ctx) {
 	// increments of numRetries
 	var incs []*ssa.Store
 	var growStore *ssa.Store
+	growStores := map[ssa.Instruction]bool{}
 	var nextIv, growIv *ssa.Call
 	eachInstrDeep(nx, func(in ssa.Instruction) {
 		if st, ok := in.(*ssa.Store); ok {
@@ -532,6 +598,7 @@ func r12_6(c *Ctx) {
 			}
 			if _, ok := isFieldSel(st.Addr, "backoffController", "interval"); ok {
 				growStore = st
+				growStores[st] = true
 			}
 		}
 		if call, ok := isModCall(in, "nextInterval"); ok {
@@ -551,6 +618,25 @@ func r12_6(c *Ctx) {
 			_, isLoad := isFieldLoad(b.X, "backoffController", "numRetries")
 			k, isK := constInt(b.Y)
 			incOK = isLoad && isK && k == 1
+		}
+	}
+	// the counter is at least as wide as the limit it is compared with (a narrower counter wraps below
+	// the limit and never reaches it)
+	if len(incs) == 1 {
+		var limT types.Type
+		eachInstrDeep(nx, func(in ssa.Instruction) {
+			if u, ok := in.(*ssa.UnOp); ok && u.Op == token.MUL {
+				if _, ok := isFieldSel(u.X, "Backoff", "MaxRetries"); ok {
+					limT = u.Type()
+				}
+			}
+		})
+		cntT := deref(incs[0].Addr.Type())
+		if limT != nil {
+			sz := types.SizesFor("gc", "amd64")
+			cb, okC := cntT.Underlying().(*types.Basic)
+			c.check(okC && cb.Info()&types.IsInteger != 0 && sz.Sizeof(cntT) >= sz.Sizeof(limT), name+":counter-width", P.ipos(incs[0]), "the retry counter ("+cntT.String()+") is at least as wide as MaxRetries ("+limT.String()+")",
+				"the retry counter ("+cntT.String()+") is narrower than MaxRetries ("+limT.String()+"): it wraps before reaching a large limit, so the number of retries is unbounded")
 		}
 	}
 	c.check(incOK, name+":increment", P.pos(nx.Pos()), "numRetries is incremented by exactly 1 at one site", "numRetries is not incremented by exactly 1 at exactly one site in next()")
@@ -573,7 +659,7 @@ func r12_6(c *Ctx) {
 			c.check(!skip, rn+":counts", P.ipos(ret), "a granted retry always passes the increment", "a path grants a retry without counting it: more than MaxRetries attempts are made")
 		}
 		if growStore != nil {
-			skip := reachesAvoiding(entryPoint(nx), ret, func(in ssa.Instruction) bool { return in == ssa.Instruction(growStore) }, nil)
+			skip := reachesAvoiding(entryPoint(nx), ret, func(in ssa.Instruction) bool { return growStores[in] }, nil)
 			c.check(!skip, rn+":grows", P.ipos(ret), "a granted retry always stores the grown interval", "a path grants a retry without growing the interval")
 		}
 		// the returned wait is nextInterval's result
@@ -584,6 +670,13 @@ func r12_6(c *Ctx) {
 					waitOK = false
 				}
 			}
+		} else if why := inlineWait(nx, ret, growStore, false); why == "" {
+			// nextInterval merged into next(): decided path-wise
+			c.ok(rn+":wait", P.ipos(ret), "the granted wait is the current interval, jittered with rng.Float64() unless Jitter == -1 (nextInterval merged into next)")
+			continue
+		} else {
+			c.bad(rn+":wait", P.ipos(ret), "the granted wait is not the jittered current interval ("+why+")")
+			continue
 		}
 		c.check(waitOK, rn+":wait", P.ipos(ret), "the granted wait is nextInterval's result", "the granted wait is not the jittered current interval")
 	}
@@ -647,20 +740,56 @@ func r12_6(c *Ctx) {
 		_, a2 := isFieldLoad(a[2], "Backoff", "Multiplier")
 		gOK = a0 && a1 && a2
 	}
-	c.check(gOK, name+":growth", P.pos(nx.Pos()), "interval := growInterval(interval, MaxInterval, Multiplier)", "the stored next interval is not growInterval(interval, MaxInterval, Multiplier)")
+	if growIv == nil && growStore != nil {
+		why, _ := inlineGrowth(nx)
+		c.check(why == "", name+":growth", P.pos(nx.Pos()), "interval := MaxInterval under MaxInterval > 0, interval*Multiplier otherwise (growInterval merged into next)", "the stored next interval is not the grown interval ("+why+")")
+	} else {
+		c.check(gOK, name+":growth", P.pos(nx.Pos()), "interval := growInterval(interval, MaxInterval, Multiplier)", "the stored next interval is not growInterval(interval, MaxInterval, Multiplier)")
+	}
 	pre := nextIv != nil && growStore != nil
-	if pre {
+	if nextIv == nil && growStore != nil {
+		// merged form: every interval load the wait is computed from precedes the growing store
+		why := ""
+		for _, ret := range returnsOf(nx) {
+			if w := inlineWait(nx, ret, growStore, true); w != "" {
+				why = w
+			}
+		}
+		c.check(why == "", name+":wait-from-pre-growth", P.pos(nx.Pos()), "the wait is computed from the interval as it was before the growing store", "the wait is computed from the already grown interval (b_1 would be InitialInterval*Multiplier): "+why)
+		pre = false
+	} else if pre {
 		a := nextIv.Call.Args
 		_, j := isFieldLoad(a[0], "Backoff", "Jitter")
 		_, iv := isFieldLoad(a[2], "backoffController", "interval")
 		pre = j && iv && instrDominates(a[2].(ssa.Instruction), growStore)
 	}
-	c.check(pre, name+":wait-from-pre-growth", P.pos(nx.Pos()), "nextInterval(Jitter, rng, interval) reads the interval before it is grown", "the wait is computed from the already grown interval (b_1 would be InitialInterval*Multiplier) or not from Jitter/interval")
+	if !(nextIv == nil && growStore != nil) {
+		c.check(pre, name+":wait-from-pre-growth", P.pos(nx.Pos()), "nextInterval(Jitter, rng, interval) reads the interval before it is grown", "the wait is computed from the already grown interval (b_1 would be InitialInterval*Multiplier) or not from Jitter/interval")
+	}
 	// (d) elapsed-time limit: the comparison uses the wait that is actually returned
 	{
 		var waitVal ssa.Value = nil
 		if nextIv != nil {
 			waitVal = nextIv
+		} else {
+			// merged form: the value every granting return hands out
+			same := true
+			for _, ret := range returnsOf(nx) {
+				if len(ret.Results) != 2 {
+					continue
+				}
+				if b, isC := constBool(ret.Results[1]); isC && !b {
+					continue
+				}
+				if waitVal == nil {
+					waitVal = ret.Results[0]
+				} else if waitVal != ret.Results[0] {
+					same = false
+				}
+			}
+			if !same {
+				waitVal = nil
+			}
 		}
 		found, good := false, false
 		for _, ifi := range ifsIn(nx) {
@@ -810,7 +939,7 @@ func r12_7(c *Ctx) {
 		good := len(res.Exit) > 0
 		var at *ssa.Return
 		for ret := range res.Exit {
-			for _, s := range sources(ret.Results[0]) {
+			for _, s := range sccpSources(res, ret.Results[0]) {
 				if s != ssa.Value(ni.Params[2]) {
 					good = false
 					at = ret
@@ -818,6 +947,16 @@ func r12_7(c *Ctx) {
 			}
 		}
 		c.check(good, fnLabel(ni)+":jitter=-1", posOfRet(P, at, ni), "with jitter=-1 the only reachable return yields the base interval itself", "with jitter=-1 the returned wait is not the base interval b_k")
+	} else if P.Fn("nextInterval") == nil {
+		// merged into next(): with Jitter == -1 every granted wait is the plain pre-growth interval
+		why := ""
+		var at *ssa.Return
+		for _, ret := range returnsOf(nx) {
+			if w := inlineWaitJitterOff(nx, ret); w != "" {
+				why, at = w, ret
+			}
+		}
+		c.check(why == "", fnLabel(nx)+":jitter=-1", posOfRet(P, at, nx), "with Jitter == -1 every granted wait is the base interval itself (nextInterval merged into next)", "with jitter=-1 the returned wait is not the base interval b_k ("+why+")")
 	} else {
 		c.anchor("nextInterval(jitter, rng, current)")
 	}
@@ -846,7 +985,86 @@ func r12_7(c *Ctx) {
 				}
 			}
 		}
+		// the uncapped result is the float product current*mul, converted back (an integer multiplication
+		// truncates the multiplier: 1.5 becomes 1 and the interval never grows)
+		prodOK, seen := true, false
+		for _, ret := range returnsOf(gi) {
+			for _, sv := range sources(ret.Results[0]) {
+				if sv == ssa.Value(gi.Params[1]) {
+					continue
+				}
+				seen = true
+				m, isM := stripConvAll(sv).(*ssa.BinOp)
+				if !isM || m.Op != token.MUL || !isFloat64(m.Type()) {
+					prodOK = false
+					continue
+				}
+				x, y := stripConvAll(m.X), stripConvAll(m.Y)
+				if !((x == ssa.Value(gi.Params[0]) && y == ssa.Value(gi.Params[2])) || (y == ssa.Value(gi.Params[0]) && x == ssa.Value(gi.Params[2]))) {
+					prodOK = false
+				}
+			}
+		}
+		c.check(prodOK && seen, fnLabel(gi)+":product", P.pos(gi.Pos()), "the uncapped result is float64(current)*mul converted back", "growInterval's uncapped result is not the floating-point product current*mul (an integer product truncates the multiplier; another formula changes the schedule)")
+		// no uncapped result on a path that found the interval itself above (or at) the limit: a cap applied only
+		// when a step crosses the limit (`current <= max && next > max`) leaves an interval that starts above it
+		// (initial interval or server retry above MaxInterval) uncapped for ever
+		if paths, okP := abstractPaths(gi, 1024, nil); okP {
+			cur, max := ssa.Value(gi.Params[0]), ssa.Value(gi.Params[1])
+			above := ""
+			for _, p := range paths {
+				if p.Ret == nil {
+					continue
+				}
+				capped := false
+				for _, sv := range sources(p.St.resolve(p.Ret.Results[0])) {
+					if sv == max {
+						capped = true
+					}
+				}
+				if capped {
+					continue
+				}
+				for e := range p.St.Edges {
+					if len(e.From.Instrs) == 0 {
+						continue
+					}
+					ifi, isIf := e.From.Instrs[len(e.From.Instrs)-1].(*ssa.If)
+					if !isIf {
+						continue
+					}
+					cnd := decodeIf(ifi)
+					if cnd.Y == nil {
+						continue
+					}
+					op := cnd.Op
+					switch {
+					case stripConvAll(cnd.X) == cur && stripConvAll(cnd.Y) == max:
+					case stripConvAll(cnd.Y) == cur && stripConvAll(cnd.X) == max:
+						op = flipOp(op)
+					default:
+						continue
+					}
+					// does this edge establish current > max or current >= max ?
+					est := false
+					switch op {
+					case token.GTR, token.GEQ:
+						est = e.Idx == cnd.succWhen(true)
+					case token.LEQ, token.LSS:
+						est = e.Idx == cnd.succWhen(false)
+					}
+					if est && pathEstablishes(p.St, factInt(func(v ssa.Value) bool { return v == max }, negInf, 1, posInf)) {
+						above = P.ipos(p.Ret)
+					}
+				}
+			}
+			c.check(above == "", fnLabel(gi)+":cap-when-above", P.pos(gi.Pos()), "no uncapped result where the interval was found above the limit", "an uncapped interval is returned (at "+above+") on a path that found the current interval above MaxInterval (> 0): an interval that starts above the limit (initial interval or server retry) is never brought back to it")
+		}
 		c.check(capOK, fnLabel(gi)+":cap", P.pos(gi.Pos()), "growInterval returns MaxInterval only under MaxInterval > 0", "growInterval has no return of MaxInterval guarded by MaxInterval > 0: the interval is never capped")
+	} else if P.Fn("growInterval") == nil {
+		why, capSeen := inlineGrowth(nx)
+		c.check(why == "", fnLabel(nx)+":MaxInterval=0", P.pos(nx.Pos()), "MaxInterval is stored only on paths that established MaxInterval > 0 (growInterval merged into next)", "with MaxInterval=0 the (zero) cap can be stored: the interval collapses instead of growing without bound ("+why+")")
+		c.check(capSeen, fnLabel(nx)+":cap", P.pos(nx.Pos()), "a path stores MaxInterval under MaxInterval > 0", "no path stores MaxInterval under MaxInterval > 0: the interval is never capped")
 	} else {
 		c.anchor("growInterval(current, max, mul)")
 	}
@@ -859,4 +1077,298 @@ func posOfRet(P *Program, r *ssa.Return, fn *ssa.Function) string {
 		return P.ipos(r)
 	}
 	return P.pos(fn.Pos())
+}
+
+// ---------------------------------------------------------------------------
+// merged form of next(): nextInterval and/or growInterval written out inside next()
+
+func isJitterTest(v ssa.Value) (eq bool, ok bool) {
+	b, isB := v.(*ssa.BinOp)
+	if !isB || (b.Op != token.EQL && b.Op != token.NEQ) {
+		return false, false
+	}
+	isJ := func(x ssa.Value) bool { _, ok := isFieldLoad(stripConvAll(x), "Backoff", "Jitter"); return ok }
+	isM1 := func(x ssa.Value) bool {
+		k, isK := x.(*ssa.Const)
+		if !isK || k.Value == nil {
+			return false
+		}
+		f, _ := constant.Float64Val(constant.ToFloat(k.Value))
+		return f == -1
+	}
+	if (isJ(b.X) && isM1(b.Y)) || (isJ(b.Y) && isM1(b.X)) {
+		return b.Op == token.EQL, true
+	}
+	return false, false
+}
+
+func assumeJitterOff(off bool) func(ssa.Value) (bool, bool) {
+	return func(v ssa.Value) (bool, bool) {
+		if eq, ok := isJitterTest(v); ok {
+			return eq == off, true
+		}
+		// any other comparison of Jitter with a constant is decided when Jitter is -1
+		b, isB := v.(*ssa.BinOp)
+		if !isB || !off {
+			return false, false
+		}
+		isJ := func(x ssa.Value) bool { _, ok := isFieldLoad(stripConvAll(x), "Backoff", "Jitter"); return ok }
+		op, kv := b.Op, b.Y
+		switch {
+		case isJ(b.X):
+		case isJ(b.Y):
+			op, kv = flipOp(b.Op), b.X
+		default:
+			return false, false
+		}
+		k, isK := kv.(*ssa.Const)
+		if !isK || k.Value == nil {
+			return false, false
+		}
+		switch op {
+		case token.LSS, token.LEQ, token.GTR, token.GEQ, token.EQL, token.NEQ:
+			return constant.Compare(constant.MakeFloat64(-1), op, constant.ToFloat(k.Value)), true
+		}
+		return false, false
+	}
+}
+
+// grantedPaths: the paths of next() that end in ret and grant the retry.
+func grantedPaths(nx *ssa.Function, ret *ssa.Return, assume func(ssa.Value) (bool, bool)) ([]absPath, bool) {
+	if len(ret.Results) != 2 {
+		return nil, true
+	}
+	paths, ok := abstractPaths(nx, 8192, assume)
+	if !ok {
+		return nil, false
+	}
+	var out []absPath
+	for _, p := range paths {
+		if p.Ret != ret {
+			continue
+		}
+		if b, isC := constBool(p.St.resolve(ret.Results[1])); isC && !b {
+			continue
+		}
+		out = append(out, p)
+	}
+	return out, true
+}
+
+// operandClosure: the values v is computed from inside its function (through operators, conversions and
+// the phis chosen on the path), stopping at loads and calls.
+func operandClosure(v ssa.Value, st *pathState) []ssa.Value {
+	var out []ssa.Value
+	seen := map[ssa.Value]bool{}
+	var walk func(x ssa.Value)
+	walk = func(x ssa.Value) {
+		x = st.resolve(x)
+		if x == nil || seen[x] {
+			return
+		}
+		seen[x] = true
+		out = append(out, x)
+		switch y := x.(type) {
+		case *ssa.BinOp:
+			walk(y.X)
+			walk(y.Y)
+		case *ssa.Convert:
+			walk(y.X)
+		case *ssa.ChangeType:
+			walk(y.X)
+		case *ssa.UnOp:
+			if y.Op != token.MUL {
+				walk(y.X)
+			}
+		case *ssa.Phi:
+			for _, e := range y.Edges {
+				walk(e)
+			}
+		}
+	}
+	walk(v)
+	return out
+}
+
+func indexOfInstr(p absPath, in ssa.Instruction) int {
+	for i, x := range p.Instrs {
+		if x == in {
+			return i
+		}
+	}
+	return -1
+}
+
+// inlineWaitJitterOff: with Jitter == -1 the wait granted at ret is a plain load of the interval.
+func inlineWaitJitterOff(nx *ssa.Function, ret *ssa.Return) string {
+	paths, ok := grantedPaths(nx, ret, assumeJitterOff(true))
+	if !ok {
+		return "too many paths"
+	}
+	for _, p := range paths {
+		w := stripConvAll(p.St.resolve(ret.Results[0]))
+		if _, isL := isFieldLoad(w, "backoffController", "interval"); !isL {
+			return "on a path with Jitter == -1 the wait is not the interval itself"
+		}
+	}
+	return ""
+}
+
+// inlineWait: the wait granted at ret is computed from the interval and, unless Jitter == -1, from
+// rng.Float64(); with preOnly it only decides that every interval load involved precedes the growing store.
+func inlineWait(nx *ssa.Function, ret *ssa.Return, growStore *ssa.Store, preOnly bool) string {
+	for _, off := range []bool{true, false} {
+		paths, ok := grantedPaths(nx, ret, assumeJitterOff(off))
+		if !ok {
+			return "too many paths"
+		}
+		rndSeen := false
+		for _, p := range paths {
+			cl := operandClosure(ret.Results[0], p.St)
+			hasIv, hasRnd := false, false
+			for _, x := range cl {
+				if _, isL := isFieldLoad(x, "backoffController", "interval"); isL {
+					hasIv = true
+					if growStore != nil {
+						li, _ := x.(ssa.Instruction)
+						a, b := indexOfInstr(p, li), -1
+						for i, in := range p.Instrs {
+							if st, isSt := in.(*ssa.Store); isSt && b < 0 {
+								if _, isIv := isFieldSel(st.Addr, "backoffController", "interval"); isIv {
+									b = i
+								}
+							}
+						}
+						if b >= 0 && (a < 0 || a > b) {
+							return "an interval load the wait is computed from follows the growing store"
+						}
+					}
+				}
+				if _, isR := isStaticCall(x, "(*math/rand.Rand).Float64"); isR {
+					hasRnd = true
+				}
+			}
+			if preOnly {
+				continue
+			}
+			if !hasIv {
+				return "a granted wait is not computed from the current interval"
+			}
+			if !off && hasRnd {
+				rndSeen = true
+			}
+			if off && hasRnd {
+				return "with Jitter == -1 a granted wait is still randomised"
+			}
+		}
+		if !off && !preOnly && len(paths) > 0 && !rndSeen {
+			return "with Jitter != -1 no granted wait involves rng.Float64()"
+		}
+	}
+	return ""
+}
+
+// inlineGrowth: on every granting path exactly one store to interval, of MaxInterval (only where
+// MaxInterval > 0 was established) or of Duration(float64(interval) * Multiplier).
+func inlineGrowth(nx *ssa.Function) (why string, capSeen bool) {
+	mulSeen := false
+	isMaxIv := func(v ssa.Value) bool { _, ok := isFieldLoad(v, "Backoff", "MaxInterval"); return ok }
+	for _, ret := range returnsOf(nx) {
+		paths, ok := grantedPaths(nx, ret, nil)
+		if !ok {
+			return "too many paths", false
+		}
+		for _, p := range paths {
+			var sts []*ssa.Store
+			for _, in := range p.Instrs {
+				if st, isSt := in.(*ssa.Store); isSt {
+					if _, isIv := isFieldSel(st.Addr, "backoffController", "interval"); isIv {
+						sts = append(sts, st)
+					}
+				}
+			}
+			if len(sts) != 1 {
+				return "a granting path does not store the next interval exactly once", capSeen
+			}
+			v := p.St.resolve(sts[0].Val)
+			if isMaxIv(v) {
+				if !pathEstablishes(p.St, factInt(isMaxIv, negInf, 1, posInf)) {
+					return "MaxInterval is stored on a path that did not establish MaxInterval > 0", capSeen
+				}
+				capSeen = true
+				continue
+			}
+			m, isM := stripConvAll(v).(*ssa.BinOp)
+			if !isM || m.Op != token.MUL || !isFloat64(m.Type()) {
+				return "the stored value is neither MaxInterval nor the floating-point product interval*Multiplier", capSeen
+			}
+			x, y := stripConvAll(p.St.resolve(m.X)), stripConvAll(p.St.resolve(m.Y))
+			_, xi := isFieldLoad(x, "backoffController", "interval")
+			_, yi := isFieldLoad(y, "backoffController", "interval")
+			_, xm := isFieldLoad(x, "Backoff", "Multiplier")
+			_, ym := isFieldLoad(y, "Backoff", "Multiplier")
+			if !((xi && ym) || (yi && xm)) {
+				return "the stored value is neither MaxInterval nor interval*Multiplier", capSeen
+			}
+			li, _ := x.(ssa.Instruction)
+			if yi {
+				li, _ = y.(ssa.Instruction)
+			}
+			if a, b := indexOfInstr(p, li), indexOfInstr(p, sts[0]); a < 0 || a > b {
+				return "the grown interval is not computed from the interval loaded before the store", capSeen
+			}
+			mulSeen = true
+		}
+	}
+	if !mulSeen {
+		return "no path stores interval*Multiplier", capSeen
+	}
+	return "", capSeen
+}
+
+func isFloat64(t types.Type) bool {
+	b, ok := t.Underlying().(*types.Basic)
+	return ok && b.Kind() == types.Float64
+}
+
+// sccpSources is sources(v) restricted to what constant propagation found feasible: a phi contributes only
+// the values arriving from reached predecessors whose branch, if decided, leads to the phi's block.
+func sccpSources(res *sccpResult, v ssa.Value) []ssa.Value {
+	var out []ssa.Value
+	seen := map[ssa.Value]bool{}
+	var walk func(x ssa.Value)
+	walk = func(x ssa.Value) {
+		if seen[x] {
+			return
+		}
+		seen[x] = true
+		phi, ok := x.(*ssa.Phi)
+		if !ok {
+			out = append(out, sources(x)...)
+			return
+		}
+		for i, e := range phi.Edges {
+			pr := phi.Block().Preds[i]
+			if !res.Reached[pr] {
+				continue
+			}
+			// a predecessor ending in a branch whose condition folded to a constant takes one edge only
+			if len(pr.Instrs) > 0 {
+				if ifi, isIf := pr.Instrs[len(pr.Instrs)-1].(*ssa.If); isIf {
+					if l, ok := res.Vals[ifi.Cond]; ok && l.kind == 1 && l.val.Kind() == constant.Bool {
+						taken := 1
+						if constant.BoolVal(l.val) {
+							taken = 0
+						}
+						if pr.Succs[taken] != phi.Block() {
+							continue
+						}
+					}
+				}
+			}
+			walk(e)
+		}
+	}
+	walk(v)
+	return out
 }
